@@ -23,7 +23,6 @@ import (
 	"github.com/ozontech/file.d/plugin/input/k8s"
 	"github.com/ozontech/file.d/plugin/input/fake"
 	"github.com/ozontech/file.d/plugin/input/k8s/meta"
-	"github.com/ozontech/file.d/plugin/output/devnull"
 	insaneJSON "github.com/ozontech/insane-json"
 	"github.com/prometheus/client_golang/prometheus"
 	"go.uber.org/zap"
@@ -43,7 +42,9 @@ import (
 //	    item = T <tag> | E <tag> <startOK> <contOK> <tree>
 //	c15.jt <max> <ntpl> (<name> <negate>)… <npath> <key>… <n> item…
 //	    item = T <tag> | E <tag> <starts…> <conts…> <tree>
-//	result = (R <res> <nprop> (<tag> <tree>)… (N | E <tag> <tree>))… (ok | panic:<kind> | fatal)
+//	result = (R <res> <nprop> (<tag> <tree>)… (N | E <tag> <tree>))… (ok | changed | panic:<kind> | fatal)
+//	         changed = an event read again at the end of the case differs from what it was when it
+//	         was handed over (propagated / passed)
 //
 // The oracle bits in the case line are recomputed here with the real regexps / template
 // functions; a case whose bits disagree is rejected (`bad-case`), so a corpus line cannot lie.
@@ -173,6 +174,14 @@ func c15Run(p pipeline.ActionPlugin, ctl *c15Ctl, calls []c15Call) string {
 			insaneJSON.Release(r)
 		}
 	}()
+	// deferred observation: every event that left the instance (propagated, or passed) is kept
+	// and read a SECOND time at the end of the case, after all later runs were processed; an
+	// output encodes an event whenever it likes, so the value must be stable after hand-over
+	type handed struct {
+		ev   *pipeline.Event
+		tree string
+	}
+	var watch []handed
 	for _, c := range calls {
 		var e *pipeline.Event
 		if c.timeout {
@@ -195,11 +204,22 @@ func c15Run(p pipeline.ActionPlugin, ctl *c15Ctl, calls []c15Call) string {
 		fmt.Fprintf(&sb, "R %s %d", c15ResTok(res), len(ctl.props))
 		for _, pr := range ctl.props {
 			fmt.Fprintf(&sb, " %d %s", tags[pr.ev], pr.tree)
+			watch = append(watch, handed{pr.ev, pr.tree})
 		}
 		if c.timeout {
 			sb.WriteString(" N ")
 		} else {
-			fmt.Fprintf(&sb, " E %d %s ", c.tag, jt.FromNode(e.Root.Node).Tok())
+			self := jt.FromNode(e.Root.Node).Tok()
+			fmt.Fprintf(&sb, " E %d %s ", c.tag, self)
+			if res == pipeline.ActionPass {
+				watch = append(watch, handed{e, self})
+			}
+		}
+	}
+	for _, h := range watch {
+		if jt.FromNode(h.ev.Root.Node).Tok() != h.tree {
+			sb.WriteString("changed")
+			return sb.String()
 		}
 	}
 	sb.WriteString("ok")
@@ -850,7 +870,94 @@ func genC15JTFrames(w *bufio.Writer, tier string) {
 	}
 }
 
+// several runs back to back on one stream, the first one long and the later ones shorter (so
+// that they fit the capacity the plugin's reusable buffer has reached) and all with different
+// text: an event flushed earlier must not change when the instance goes on to the next run
+func c15RunValues(rng *hx.Rng, startPrefix, contPrefix string) [][]string {
+	nruns := rng.Range(2, 5)
+	size := rng.Range(24, 90)
+	var runs [][]string
+	for r := 0; r < nruns; r++ {
+		fill := func(n int, c byte) string { return strings.Repeat(string([]byte{c}), n) }
+		letter := byte('A' + (r*7+rng.Intn(5))%26)
+		nconts := rng.Range(0, 3)
+		per := size / (nconts + 1)
+		if per < 1 {
+			per = 1
+		}
+		run := []string{startPrefix + fill(per, letter) + strconv.Itoa(r)}
+		for k := 0; k < nconts; k++ {
+			run = append(run, contPrefix+fill(per, letter+1)+strconv.Itoa(k))
+		}
+		runs = append(runs, run)
+		size = size * rng.Range(40, 90) / 100
+	}
+	return runs
+}
+
+func genC15Runs(w *bufio.Writer, rng *hx.Rng, tier string) {
+	n := 250
+	if tier == "thorough" {
+		n = 4000
+	}
+	for i := 0; i < n; i++ {
+		// join, action level
+		c := &c15JoinCfg{startRe: `^a`, contRe: `^b`, max: []int{0, 0, 64}[rng.Intn(3)], path: []string{"log"}}
+		c.compile()
+		var items []c15Item
+		for _, run := range c15RunValues(rng, "a", "b") {
+			for _, v := range run {
+				items = append(items, c15Item{tree: c15Wrap(c.path, jt.S(v), len(items), false)})
+			}
+			if rng.Chance(1, 4) {
+				items = append(items, c15Item{tree: c15Wrap(c.path, jt.S("closing line"), len(items), false)})
+			}
+		}
+		if rng.Bool() {
+			items = append(items, c15Item{tree: c15Wrap(c.path, jt.S("x"), len(items), false)})
+		} else {
+			items = append(items, c15Item{timeout: true})
+		}
+		c15JoinLine(w, c, items)
+		// join_template (go_panic), action level
+		var lines [][]byte
+		for _, run := range c15RunValues(rng, "panic: ", "main.f() ") {
+			for _, v := range run {
+				lines = append(lines, []byte(v))
+			}
+		}
+		lines = append(lines, []byte("plain text"))
+		c15JTLine(w, []string{"go_panic"}, lines)
+	}
+	// the same through a real pipeline: one stream, fed without pauses, an output that reads later
+	np := 12
+	if tier == "thorough" {
+		np = 120
+	}
+	for i := 0; i < np; i++ {
+		c := &c15JoinCfg{startRe: `^a`, contRe: `^b`, path: []string{"log"}}
+		c.compile()
+		var sb strings.Builder
+		id := 0
+		for rep := rng.Range(1, 3); rep > 0; rep-- {
+			for _, run := range c15RunValues(rng, "a", "b") {
+				for _, v := range run {
+					id++
+					obj := jt.O(jt.F("log", jt.S(v)), jt.F("stream", jt.S("s")), jt.F("id", jt.Nu(strconv.Itoa(id))))
+					fmt.Fprintf(&sb, " E %d %s %s %s", id, hx.B(c.sre.MatchString(v)), hx.B(c.cre.MatchString(v)), obj.Tok())
+				}
+			}
+		}
+		id++
+		obj := jt.O(jt.F("log", jt.S("x")), jt.F("stream", jt.S("s")), jt.F("id", jt.Nu(strconv.Itoa(id))))
+		fmt.Fprintf(&sb, " E %d 0 0 %s", id, obj.Tok())
+		fmt.Fprintf(w, "c15.pipe %d 0 0 %s %s %s 1 1 %s %d%s\n", []int{1, 1, 2}[rng.Intn(3)], hx.Enc([]byte(c.startRe)), hx.Enc([]byte(c.contRe)),
+			[]string{"j", "jv"}[rng.Intn(2)], hx.Enc([]byte("s")), id, sb.String())
+	}
+}
+
 func genC15(w *bufio.Writer, rng *hx.Rng, tier string) {
+	genC15Runs(w, rng, tier)
 	genC15Tpl(w, rng, tier)
 	genC15JTFrames(w, tier)
 	genC15Join(w, rng, tier)
@@ -867,7 +974,7 @@ func genC15(w *bufio.Writer, rng *hx.Rng, tier string) {
 //	             the chain> of the event's "v" field is 'D' (field or character absent = pass)
 //	    stream = <sourceID> <streamName> <n> item…
 //	    item   = P | E <id> <startOK> <contOK> <tree>     (tree = {"log":…,"stream":<name>,"id":<id>,"v":…})
-//	result = <ncalls> call… <nstreams> (<nout> <tree>…)… (ok | stuck | panic)
+//	result = <ncalls> call… <nstreams> (<nout> <tree>…)… (ok | changed | stuck | panic)
 //	    call = <instance> (T <tag> | E <id>) R <res> <nprop> (<tag> <tree>)… (N | E <tag> <tree>)
 //
 // A real pipeline (fake input, devnull output, one `join` action) runs with <nprocs> processors.
@@ -903,6 +1010,7 @@ type c15Rec struct {
 	jpos     int
 	wantOut  int  // events that must reach the output: sent on by join and passed by every later action
 	panicked bool // some Do call panicked (recovered by the recorder, answered Discard)
+	changed  bool // an event read by the output later differs from what it was when it arrived
 }
 
 // does every verdict action at the given chain positions pass the event
@@ -1030,6 +1138,61 @@ func (w *c15RecPlugin) Do(e *pipeline.Event) pipeline.ActionResult {
 	return res
 }
 
+// output that behaves like a batching output: it keeps the events it is given and reads
+// ("encodes") and commits them LATER — when the feeders wait for the pipeline (a stream whose
+// events are not committed cannot be re-attached) and at the end of the case. What is recorded
+// as the output of a stream is that later reading; `changed` = it differs from what the event
+// was when it arrived.
+type c15HeldEvent struct {
+	ev      *pipeline.Event
+	tag     int
+	arrival string
+}
+
+type c15HoldOutput struct {
+	rec  *c15Rec
+	ctl  pipeline.OutputPluginController
+	mu      sync.Mutex
+	flushMu sync.Mutex
+	held    []c15HeldEvent
+}
+
+func (o *c15HoldOutput) Start(_ pipeline.AnyConfig, params *pipeline.OutputPluginParams) {
+	o.ctl = params.Controller
+}
+func (o *c15HoldOutput) Stop() {}
+func (o *c15HoldOutput) Out(e *pipeline.Event) {
+	o.rec.mu.Lock()
+	tag := o.rec.tagOf[c15StreamKey(e)]
+	o.rec.mu.Unlock()
+	h := c15HeldEvent{ev: e, tag: tag, arrival: jt.FromNode(e.Root.Node).Tok()}
+	o.mu.Lock()
+	o.held = append(o.held, h)
+	o.mu.Unlock()
+}
+
+func (o *c15HoldOutput) flush() {
+	// one flush at a time: the feeders call it concurrently and the per-stream order of what is
+	// recorded must be the order of arrival
+	o.flushMu.Lock()
+	defer o.flushMu.Unlock()
+	o.mu.Lock()
+	held := o.held
+	o.held = nil
+	o.mu.Unlock()
+	for _, h := range held {
+		now := jt.FromNode(h.ev.Root.Node).Tok()
+		o.rec.mu.Lock()
+		if now != h.arrival {
+			o.rec.changed = true
+		}
+		o.rec.outs[h.tag] = append(o.rec.outs[h.tag], now)
+		o.rec.nout++
+		o.rec.mu.Unlock()
+		o.ctl.Commit(h.ev)
+	}
+}
+
 type c15PipeItem struct {
 	pause   bool
 	id      int
@@ -1155,18 +1318,10 @@ func execC15Pipe(t *hx.Toks) string {
 		PluginStaticInfo:  &pipeline.PluginStaticInfo{Type: "fake"},
 		PluginRuntimeInfo: &pipeline.PluginRuntimeInfo{Plugin: input},
 	})
-	out, _ := devnull.Factory()
-	output := out.(*devnull.Plugin)
+	output := &c15HoldOutput{rec: rec}
 	p.SetOutput(&pipeline.OutputPluginInfo{
-		PluginStaticInfo:  &pipeline.PluginStaticInfo{Type: "devnull"},
+		PluginStaticInfo:  &pipeline.PluginStaticInfo{Type: "c15-hold"},
 		PluginRuntimeInfo: &pipeline.PluginRuntimeInfo{Plugin: output},
-	})
-	output.SetOutFn(func(e *pipeline.Event) {
-		rec.mu.Lock()
-		tag := rec.tagOf[c15StreamKey(e)]
-		rec.outs[tag] = append(rec.outs[tag], jt.FromNode(e.Root.Node).Tok())
-		rec.nout++
-		rec.mu.Unlock()
 	})
 	for pos := range chain {
 		if chain[pos] == 'v' {
@@ -1206,6 +1361,7 @@ func execC15Pipe(t *hx.Toks) string {
 	deadline := func(d time.Duration, cond func() bool) bool {
 		end := time.Now().Add(d)
 		for time.Now().Before(end) {
+			output.flush() // the pipeline is being waited for: the "batch" is sent now
 			rec.mu.Lock()
 			ok := cond()
 			rec.mu.Unlock()
@@ -1261,6 +1417,9 @@ func execC15Pipe(t *hx.Toks) string {
 		end = "stuck" // the trace so far is still reported: the oracle can say which hypothesis broke
 	}
 	rec.mu.Lock()
+	if rec.changed {
+		end = "changed"
+	}
 	if rec.panicked {
 		end = "panic"
 	}
@@ -1378,7 +1537,7 @@ func genC15Pipe(w *bufio.Writer, rng *hx.Rng, tier string) {
 //
 //	c15.k8s <split> <max> <cutOff> <cutField|-> <n> item…
 //	    item = T <tag> | E <tag> <size> <kind A|N|S> <frag> <raw JSON text of the log value|->
-//	result = (R <res> (N | L <escaped log>) <cut> <exceeded>)… (ok | panic:<kind> | fatal)
+//	result = (R <res> (N | L <escaped log>) <cut> <exceeded>)… (ok | changed | panic:<kind> | fatal)
 //
 // <frag> is the oracle: what insane-json AppendEscapedString yields for the `log` node
 // (recomputed here; a case whose oracle disagrees is rejected).
@@ -1502,6 +1661,17 @@ func execC15K8s(t *hx.Toks) string {
 	}))
 	defer ap.Stop()
 	var sb strings.Builder
+	type handed struct {
+		root *insaneJSON.Root
+		log  string
+	}
+	var watch []handed // passed events, read again at the end of the case
+	var roots []*insaneJSON.Root
+	defer func() {
+		for _, r := range roots {
+			insaneJSON.Release(r)
+		}
+	}()
 	for _, it := range items {
 		var e *pipeline.Event
 		var root *insaneJSON.Root
@@ -1509,8 +1679,8 @@ func execC15K8s(t *hx.Toks) string {
 			e = c15Timeout()
 		} else {
 			root = insaneJSON.Spawn()
+			roots = append(roots, root)
 			if err := root.DecodeBytes(c15K8sJSON(it.raw, it.absent)); err != nil {
-				insaneJSON.Release(root)
 				return "bad-case"
 			}
 			e = &pipeline.Event{Root: root, Size: it.size, SourceName: "k8s/x.log"}
@@ -1519,20 +1689,22 @@ func execC15K8s(t *hx.Toks) string {
 		res, end := c15Do(ap, e)
 		if end != "" {
 			sb.WriteString(end)
-			if root != nil {
-				insaneJSON.Release(root)
-			}
 			return sb.String()
 		}
 		fmt.Fprintf(&sb, "R %s ", c15ResTok(res))
 		if res == pipeline.ActionPass && root != nil {
-			fmt.Fprintf(&sb, "L %s %s ", hx.Enc([]byte(root.Dig("log").AsEscapedString())), hx.B(cutField != "" && root.Dig(cutField) != nil))
+			log := root.Dig("log").AsEscapedString()
+			fmt.Fprintf(&sb, "L %s %s ", hx.Enc([]byte(log)), hx.B(cutField != "" && root.Dig(cutField) != nil))
+			watch = append(watch, handed{root, strings.Clone(log)})
 		} else {
 			sb.WriteString("N 0 ")
 		}
 		fmt.Fprintf(&sb, "%s ", hx.B(ctl.exceeds > 0))
-		if root != nil {
-			insaneJSON.Release(root)
+	}
+	for _, h := range watch {
+		if h.root.Dig("log").AsEscapedString() != h.log {
+			sb.WriteString("changed")
+			return sb.String()
 		}
 	}
 	sb.WriteString("ok")
